@@ -10,6 +10,12 @@ working tree's source with `ast` and written to lean/FordModel/Generated/C17.lea
   indexName    the one string constant "index.md" used by pagetree.py (3 sites)
   mdSuffix     get_page_tree     : filename.suffix == ".md"
   skipFirst/skipLast  get_page_tree : `if name[0] == ".": continue`, `if name[-1] == "~": continue`
+  gptParams / pageNodeParams   the parameter lists (with default literals) of get_page_tree / PageNode.__init__
+  recCall / indexNodeCall / subNodeCall / mainCall
+               every call by which one level of the walk hands its per-run arguments on: the recursive
+               `get_page_tree(...)` call, the two `PageNode(...)` calls (index.md / sibling page) and the call
+               in ford.main; each bound to the callee's parameters (parameter -> expression passed)
+  readTextArg  PageNode.__init__ : `Path(path).read_text(<expr>)` - how the file is decoded
 
 Every extractor raises when its construct is not found (tie broken, never a pass).
 """
@@ -180,6 +186,96 @@ def pagetree_constants():
     return idx.pop(), suffix, skips.get(0, []), skips.get(-1, [])
 
 
+# ---- argument forwarding: what each level of the walk hands to the next ----
+
+def _expr(node):
+    """normal form of an argument expression: a name, 'literal (string constant), or its source text"""
+    if isinstance(node, ast.Name):
+        return node.id
+    if isinstance(node, ast.Constant) and isinstance(node.value, str):
+        return "'" + node.value
+    return ast.unparse(node)
+
+
+def _params(fn, drop_self=False):
+    a = fn.args
+    if a.vararg or a.kwarg or a.kwonlyargs or a.posonlyargs:
+        raise NotFound(f"{fn.name}: plain positional-or-keyword parameters only")
+    names = [x.arg for x in a.args]
+    defaults = [None] * (len(names) - len(a.defaults)) + list(a.defaults)
+    out = [(n, "" if d is None else _expr(d)) for n, d in zip(names, defaults)]
+    return out[1:] if drop_self else out
+
+
+def _bind(call, params, what):
+    """bind the arguments of `call` to the callee's parameters; omitted parameters are absent"""
+    names = [n for n, _ in params]
+    if any(isinstance(a, ast.Starred) for a in call.args) or any(k.arg is None for k in call.keywords):
+        raise NotFound(f"{what}: */** arguments cannot be bound")
+    if len(call.args) > len(names):
+        raise NotFound(f"{what}: more positional arguments than parameters")
+    out = [(names[i], _expr(a)) for i, a in enumerate(call.args)]
+    for k in call.keywords:
+        if k.arg not in names or k.arg in dict(out):
+            raise NotFound(f"{what}: unexpected keyword {k.arg}")
+        out.append((k.arg, _expr(k.value)))
+    for n, d in params:
+        if d == "" and n not in dict(out):
+            raise NotFound(f"{what}: required parameter {n} not passed")
+    order = {n: i for i, n in enumerate(names)}
+    return sorted(out, key=lambda kv: order[kv[0]])
+
+
+def _calls_to(fn, name):
+    return [n for n in ast.walk(fn) if isinstance(n, ast.Call) and isinstance(n.func, ast.Name) and n.func.id == name]
+
+
+def call_tables():
+    tree = _parse("ford/pagetree.py")
+    gpt = _func(tree, "get_page_tree")
+    init = _func(tree, "__init__", "PageNode")
+    gpt_params = _params(gpt)
+    node_params = _params(init, drop_self=True)
+    rec = _calls_to(gpt, "get_page_tree")
+    if len(rec) != 1:
+        raise NotFound(f"exactly one recursive get_page_tree call, found {len(rec)}")
+    loops = [n for n in ast.walk(gpt) if isinstance(n, ast.For)]
+    if len(loops) != 1:
+        raise NotFound(f"exactly one loop in get_page_tree, found {len(loops)}")
+    in_loop = {id(n) for n in ast.walk(loops[0])}
+    if id(rec[0]) not in in_loop:
+        raise NotFound("the recursive call is not inside the loop over the directory")
+    nodes = _calls_to(gpt, "PageNode")
+    idx = [c for c in nodes if id(c) not in in_loop]
+    sub = [c for c in nodes if id(c) in in_loop]
+    if len(idx) != 1 or len(sub) != 1:
+        raise NotFound(f"one PageNode call for index.md and one for sibling pages, found {len(idx)} / {len(sub)}")
+    reads = [n for n in ast.walk(init) if isinstance(n, ast.Call) and isinstance(n.func, ast.Attribute)
+             and n.func.attr == "read_text"]
+    if len(reads) != 1:
+        raise NotFound(f"PageNode.__init__: exactly one read_text call, found {len(reads)}")
+    r = reads[0]
+    if len(r.args) == 1 and not r.keywords:
+        read_arg = _expr(r.args[0])
+    elif not r.args and len(r.keywords) == 1 and r.keywords[0].arg == "encoding":
+        read_arg = _expr(r.keywords[0].value)
+    else:
+        raise NotFound("PageNode.__init__: read_text(<encoding expression>)")
+    main = _func(_parse("ford/__init__.py"), "main")
+    mc = _calls_to(main, "get_page_tree")
+    if len(mc) != 1:
+        raise NotFound(f"ford.main: exactly one get_page_tree call, found {len(mc)}")
+    return {
+        "gptParams": gpt_params,
+        "pageNodeParams": node_params,
+        "recCall": _bind(rec[0], gpt_params, "recursive get_page_tree call"),
+        "indexNodeCall": _bind(idx[0], node_params, "PageNode call for index.md"),
+        "subNodeCall": _bind(sub[0], node_params, "PageNode call for a sibling page"),
+        "mainCall": _bind(mc[0], gpt_params, "get_page_tree call in ford.main"),
+        "readTextArg": read_arg,
+    }
+
+
 def chars(s):
     return "[" + ", ".join("'" + ("\\'" if c == "'" else "\\\\" if c == "\\" else c) + "'" for c in s) + "]"
 
@@ -201,7 +297,12 @@ def extract():
         "mdSuffix": suffix,
         "skipFirst": first,
         "skipLast": last,
+        **call_tables(),
     }
+
+
+def pairs(kv):
+    return "[" + ", ".join(f"({chars(k)}, {chars(v)})" for k, v in kv) + "]"
 
 
 def translate():
@@ -230,6 +331,24 @@ def mdSuffix : Str := {chars(t["mdSuffix"])}
 def skipFirst : List Char := {chars("".join(t["skipFirst"]))}
 /-- `if name[-1] == c: continue` -/
 def skipLast : List Char := {chars("".join(t["skipLast"]))}
+
+/-! argument forwarding (parameter -> expression passed; an expression is a name of the caller,
+    `'text` for a string literal, or source text; parameters that a call omits are absent) -/
+
+/-- parameters of `get_page_tree` with their default expressions (`[]` = required) -/
+def gptParams : List (Str × Str) := {pairs(t["gptParams"])}
+/-- parameters of `PageNode.__init__` (without `self`) with their default expressions -/
+def pageNodeParams : List (Str × Str) := {pairs(t["pageNodeParams"])}
+/-- the recursive `get_page_tree(...)` call for a sub-directory -/
+def recCall : List (Str × Str) := {pairs(t["recCall"])}
+/-- `PageNode(...)` for the index.md of the directory being listed -/
+def indexNodeCall : List (Str × Str) := {pairs(t["indexNodeCall"])}
+/-- `PageNode(...)` for a sibling `*.md` inside the loop -/
+def subNodeCall : List (Str × Str) := {pairs(t["subNodeCall"])}
+/-- `get_page_tree(...)` in `ford.main` -/
+def mainCall : List (Str × Str) := {pairs(t["mainCall"])}
+/-- `Path(path).read_text(...)` in `PageNode.__init__`: the encoding expression -/
+def readTextArg : Str := {chars(t["readTextArg"])}
 
 end Ford.Gen.C17
 """
